@@ -122,6 +122,35 @@ def h_pair_cache(I, deco_factory_fi):
         P.check("pair-cache.miss-on-different-pair[%s]" % label, len(calls) == 2 and calls[1][:2] == second, "a different pair is recomputed", kind="post")
 
 
+def replay_pair_cache(name, model):
+    """native replay of a refuted pair-cache obligation: the call history of the scenario on the REAL memoised `_convolve_two_children`, every answer compared with the
+    undecorated function on fresh copies. (A digest collision between disjoint pairs cannot be constructed natively; that scenario stays without a failing input.)"""
+    import re
+    m = re.search(r"pair-cache\.[a-z-]+\[([a-z-]+)\]", name)
+    if not m:
+        return None
+    import numpy as np
+    from phyclone.tree.utils import _convolve_two_children as f
+
+    hist = {"swapped": ((0, 1), (1, 0)), "equal-pair-vs-mixed": ((0, 0), (0, 1)), "different": ((0, 1), (0, 2)), "same": ((0, 1), (0, 1)),
+            "two-pairs-of-twins": ((0, 4), (1, 5)), "disjoint-pairs": ((0, 1), (2, 3))}.get(m.group(1))
+    if hist is None:
+        return None
+    for D, G in ((1, 6), (3, 11)):
+        rng = np.random.default_rng(17 + D)
+        arrs = [rng.normal(0, 2.0, size=(D, G)) for _ in range(4)]
+        arrs += [arrs[0].copy(), arrs[1].copy()]  # twins of 0 and of 1
+        if hasattr(f, "cache_clear"):
+            f.cache_clear()
+        for step, (i, j) in enumerate(hist):
+            got = np.array(f(arrs[i], arrs[j]))
+            want = np.array(f.__wrapped__(arrs[i].copy(), arrs[j].copy()))
+            if got.shape != want.shape or not np.allclose(got, want, rtol=1e-10, atol=1e-10):
+                return {"reproduced": True, "input": {"shape": [D, G], "history_of_array_indices": [list(h) for h in hist[: step + 1]], "arrays": "rng(17 + D).normal(0, 2); 4 = copy of 0, 5 = copy of 1"},
+                        "deviation": float(np.abs(got - want).max()) if got.shape == want.shape else "shape", "cmd": "phyclone.tree.utils._convolve_two_children along the history vs __wrapped__"}
+    return {"reproduced": False, "note": "the real memoised function agrees with the undecorated one along this history on two shapes"}
+
+
 PAIR_COVERS = ["pair:swapped", "pair:equal-pair-vs-mixed", "pair:different", "pair:same", "pair:two-pairs-of-twins", "pair:disjoint-pairs"]
 
 
